@@ -31,6 +31,8 @@ type VM struct {
 	// sp is the stack pointer and always points to
 	// the next value in the stack. The top of the stack is stack[sp-1].
 	sp int
+
+	verif verifVMState // empty unless built with the verif tag
 }
 
 // NewVM returns a new VM.
@@ -53,6 +55,7 @@ func (vm *VM) Run() error {
 	for ip := 0; ip < len(vm.instructions); ip++ {
 		// This loop is the hot path of the vm, avoid unnecessary
 		// lookups or memory movement.
+		vm.verifTrace(ip) // no-op unless built with the verif tag
 		op := Opcode(vm.instructions[ip])
 		switch op {
 		case OpConstant:
